@@ -24,6 +24,36 @@ def _relayout(a, layout):
 
 
 tprog.relayout = _relayout
+
+# `stride=None` / stride left out ("Defaults to kernel_size"): a pooling call whose stride equals its kernel is ALSO spelled the
+# default way when the case says so (c['stride_default']); the model is told the stride in full either way
+_STRIDE_DEFAULT = [0]
+_call_nn0 = tprog.Impl._call_nn
+
+
+def _call_nn(self, name, x, args, sp=0):
+    mode = _STRIDE_DEFAULT[0]
+    if mode and name in ('max_pool1d', 'avg_pool1d', 'max_pool2d', 'avg_pool2d') and args[0] == args[1]:
+        one = name.endswith('1d')
+        cv = (lambda a: int(a)) if one else (lambda a: (lambda v: v[0] if (sp == 1 and v[0] == v[1]) else v)(tuple(common.parse_ints(a))))
+        k, p, d = cv(args[0]), cv(args[2]), cv(args[3])
+        if mode in (1, 2):
+            f = getattr(self.sg, name)
+            return f(x[0], k, None, p, d) if mode == 1 else f(x[0], k, padding=p, dilation=d)
+        cls = getattr(self.nn, {'max_pool1d': 'MaxPool1d', 'avg_pool1d': 'AvgPool1d', 'max_pool2d': 'MaxPool2d', 'avg_pool2d': 'AvgPool2d'}[name])
+        return (cls(k, None, p, d) if mode == 3 else cls(k, padding=p, dilation=d))(x[0])
+    return _call_nn0(self, name, x, args, sp)
+
+
+tprog.Impl._call_nn = _call_nn
+
+
+def _run_t(c, lines):
+    _STRIDE_DEFAULT[0] = c.get('stride_default', 0)
+    try:
+        return tprog.run_program(lines)
+    finally:
+        _STRIDE_DEFAULT[0] = 0
 VIEW_KINDS = views.VIEW_KINDS
 PROP = 'C14'
 LEAN_TARGETS = ['Props.C14']
@@ -53,6 +83,10 @@ RULE = ('one program per identity and operand set, both sides built over the sam
         'whose buffer is axis-permuted / strided: transpose / movedim views, elementwise results of those, stepped and reversed slices, '
         'slices of transposed tensors (harness/views.py); leaves arrive in C / Fortran / strided / reversed / offset / transposed / zero-stride '
         'broadcast layouts; flatten = reshape over (view kind) x (whole tensor / prefix / suffix / any range). '
+        'GEOMETRY GRID (enumerated, identical under every seed; operand values drawn): max / avg pool 1-d over kernel 1-3 x dilation 1-3 x {stride = kernel with lengths made of whole windows / '
+        'with a remainder / of exactly one window, padding 0 and 1; stride 1; stride kernel + 1}; max / avg pool 2-d and conv2d over kernels (2,2) (3,3) (2,3) (1,2) x dilations '
+        '(1,1) (2,2) (1,2) (2,1) (3,3) (3,1) x extents with / without remainder at stride = kernel, padding 0; wherever stride = kernel the call is ALSO made with '
+        'the stride left to its default (stride=None, stride omitted; function and layer class). '
         'Non-trivial: every case (each has a differentiable leaf and > 1 element).')
 EXHAUSTIVE = {'quick': False, 'thorough': False}
 ASSUMPTIONS = ['float64; identities that pass through log(x + 1e-12) hold up to that guard (tolerance 1e-6 on moderate values)']
@@ -275,7 +309,7 @@ def finish(b, lhs, rhs, rng, tol=1e-9):
 _BIG_BUDGET = [1]
 
 
-def gen_identity(rng, which, big=False, mask=None, views=0.0, kinds=None, force=None, nobig=False):
+def gen_identity(rng, which, big=False, mask=None, views=0.0, kinds=None, force=None, nobig=False, geom=None):
     """`mask`: None = every operand requires grad; p = every operand leaf requires grad with probability p (at least one does);
     a list = the flags of the operand leaves in order (stack / unbind then take that many operands, conv2d a bias when there are three)"""
     nmask = len(mask) if isinstance(mask, (list, tuple)) else None
@@ -336,7 +370,7 @@ def gen_identity(rng, which, big=False, mask=None, views=0.0, kinds=None, force=
         return finish(b, l, r, rng)
     if which == 'conv2d':
         n, c, co = rng.randint(1, 2), rng.randint(1, 2), rng.randint(1, 2)
-        (H, kh, sh_, ph, dh), (W, kw, sw, pw, dw) = gen_ops.geom2(rng)
+        (H, kh, sh_, ph, dh), (W, kw, sw, pw, dw) = geom or gen_ops.geom2(rng)
         lh = (H + 2 * ph - dh * (kh - 1) - 1) // sh_ + 1; lw = (W + 2 * pw - dw * (kw - 1) - 1) // sw + 1
         x, w = b.leaf((n, c, H, W), V((n, c, H, W))), b.leaf((co, c, kh, kw), V((co, c, kh, kw)))
         bias = b.leaf((co,), V((co,))) if (nmask == 3 or (nmask is None and rng.chance(.5))) else None          # with a bias: ... + b per output channel
@@ -351,9 +385,10 @@ def gen_identity(rng, which, big=False, mask=None, views=0.0, kinds=None, force=
     if which in ('maxpool', 'avgpool'):
         n, c = rng.randint(1, 2), rng.randint(1, 2)
         while True:
-            (H, kh, sh_, ph, dh), (W, kw, sw, pw, dw) = gen_ops.geom2(rng)
+            (H, kh, sh_, ph, dh), (W, kw, sw, pw, dw) = geom or gen_ops.geom2(rng)
             if ph <= kh // 2 and pw <= kw // 2: break
-        if rng.chance(.4): kw, sw, pw, dw = kh, sh_, min(ph, pw), dh if W + 2 * min(ph, pw) >= dh * (kh - 1) + 1 else dw      # square arguments: the documented bare-int spelling becomes possible
+        if geom: nobig = True
+        elif rng.chance(.4): kw, sw, pw, dw = kh, sh_, min(ph, pw), dh if W + 2 * min(ph, pw) >= dh * (kh - 1) + 1 else dw      # square arguments: the documented bare-int spelling becomes possible
         if pw > kw // 2 or W + 2 * pw < dw * (kw - 1) + 1: kw, sw, pw, dw = 1, 1, 0, 1
         bigwin = big
         if not big and rng.chance(.1) and not nobig and _BIG_BUDGET[0] > 0:      # (slow in the model: a budget per run, none in the per-view-kind sweep)
@@ -419,7 +454,7 @@ def gen_identity(rng, which, big=False, mask=None, views=0.0, kinds=None, force=
         # the 1-d kernels through the one-row lift x[:, :, None, :]: unfold with kernel (1, k), then max / mean over the kernel axis
         n, c = rng.randint(1, 2), rng.randint(1, 2)
         while True:
-            Ln, k, s_, p, d = gen_ops.geom1(rng)
+            Ln, k, s_, p, d = geom or gen_ops.geom1(rng)
             if p <= k // 2: break
         lo = (Ln + 2 * p - d * (k - 1) - 1) // s_ + 1
         x = b.leaf((n, c, Ln), V((n, c, Ln), rng.pick(['distinct', 'ties', 'ties'])))
@@ -592,8 +627,46 @@ IDS = ['ce', 'bcel', 'logsoftmax', 'linear', 'neuron', 'addmm', 'conv2d', 'maxpo
        'flatten', 'movedim', 'seq', 'seq', 'neuronmod']
 
 
+def geometry_grid(tier):
+    """the small geometry grid, ENUMERATED (not drawn): stride = kernel (the default configuration: non-overlapping windows) x
+    padding 0 / 1 x dilation 1, 2, 3 x input lengths that consist of whole windows / leave a remainder / hold exactly one window,
+    plus stride = 1 and stride = kernel + 1 as neighbours.  Entries: (identity, geometry, stride spelling 0..4)"""
+    g1, g2 = [], []
+    for k in (1, 2, 3):
+        for d in (1, 2, 3):
+            if k == 1 and d > 1 and tier == 'quick': continue
+            span = d * (k - 1) + 1
+            tile = k * (-(-(span + k) // k))          # a multiple of the kernel holding at least two windows
+            for L, s_, p in [(tile, k, 0), (tile + 1, k, 0), (span, k, 0), (tile + k, k, 0), (tile, k, 1 if k > 1 else 0), (tile, 1, 0), (tile + 1, k + 1, 0)]:
+                if p > k // 2 or L + 2 * p < span or (L, k, s_, p, d) in g1: continue
+                g1.append((L, k, s_, p, d))
+    for kh, kw in ((2, 2), (3, 3), (2, 3), (1, 2)):
+        for dh, dw in ((1, 1), (2, 2), (1, 2), (2, 1), (3, 3), (3, 1)):
+            for rem in (0, 1):
+                H = kh * (-(-(dh * (kh - 1) + 1 + kh) // kh)) + rem; W = kw * (-(-(dw * (kw - 1) + 1 + kw) // kw)) + (rem if (kh + dh) % 2 else 1 - rem)
+                g2.append(((H, kh, kh, 0, dh), (W, kw, kw, 0, dw)))
+    out = []
+    for j, g in enumerate(g1):
+        for w in ('maxpool1d', 'avgpool1d'):
+            out.append((w, g, 0))
+            if g[1] == g[2]: out.append((w, g, 1 + (j + (w == 'avgpool1d')) % 4))
+    for j, g in enumerate(g2):
+        for w in ('maxpool', 'avgpool', 'conv2d'):
+            if tier == 'quick' and (j + len(w)) % 2: continue          # (quick: every second point per identity, alternating)
+            out.append((w, g, 0 if w == 'conv2d' else (j // 2) % 5))
+    return out
+
+
 def cases(rng, tier):
     out = []
+    for w, g, sd in geometry_grid(tier):
+        c = gen_identity(rng, w, geom=g, nobig=True)
+        c['id'] = w; c['grid'] = True
+        if sd: c['stride_default'] = sd
+        gs = f'L={g[0]} kernel={g[1]} stride={g[2]} padding={g[3]} dilation={g[4]}' if w.endswith('1d') else f'H,W={g[0][0]},{g[1][0]} kernel={g[0][1]},{g[1][1]} stride={g[0][2]},{g[1][2]} padding=0 dilation={g[0][4]},{g[1][4]}'
+        c['geom'] = gs + ('' if not sd else ', stride spelled ' + ['', 'None', 'by omission', 'None (layer)', 'by omission (layer)'][sd])
+        c['desc'] = f'{w} (geometry grid: {c["geom"]}): ' + ' ; '.join(c['lines'])[:400]
+        out.append(c)
     reps = 8 if tier == 'quick' else 300
     _BIG_BUDGET[0] = 1 if tier == 'quick' else 10 ** 6      # randomly drawn > 256-element pooling windows (next to the two forced ones)
     for w in IDS:
@@ -643,7 +716,7 @@ def _split(c):
 
 def impl(c):
     tl, ml = _split(c)
-    return tprog.run_program(tl) + (tprog.run_mf(ml) if ml else [])
+    return _run_t(c, tl) + (tprog.run_mf(ml) if ml else [])
 
 
 class _Manual:
@@ -734,6 +807,14 @@ def distribution(cases):
     d = {}
     for c in cases:
         d[c['id']] = d.get(c['id'], 0) + 1
+        if c.get('grid'):
+            k = f"{c['id']} on the enumerated geometry grid" + (' with the stride left to its default' if c.get('stride_default') else '')
+            d[k] = d.get(k, 0) + 1
+            if 'stride=' in c['geom']:
+                import re as _re
+                m = _re.search(r'kernel=(\S+) stride=(\S+) padding=(\S+) dilation=(\S+?),? ', c['geom'] + ' ')
+                k = 'grid: stride = kernel, padding 0, dilation > 1' if m and m.group(1) == m.group(2) and m.group(3) == '0' and set(m.group(4).split(',')) != {'1'} else None
+                if k: d[k] = d.get(k, 0) + 1
         for v in c.get('views', []): d[f'operand behind a non-contiguous view: {v}'] = d.get(f'operand behind a non-contiguous view: {v}', 0) + 1
         if c.get('views'): d[f"{c['id']} on non-contiguous operands"] = d.get(f"{c['id']} on non-contiguous operands", 0) + 1
         m = c.get('mask', '')
@@ -746,7 +827,7 @@ def distribution(cases):
 
 
 def oracle(c):
-    io = tprog.run_program(_split(c)[0])
+    io = _run_t(c, _split(c)[0])
     bad = _pairs_ok(c, io)
     if 'rejected' in [o for l, o in zip(c['lines'], io) if l.startswith(('t op', 't sop', 't bw'))]:
         return {'key': {'id': c['id'], 'cls': 'rejected'}, 'case': {k: v for k, v in c.items() if k != 'desc'}, 'what': f"identity {c['id']}: one side raised"}
